@@ -57,9 +57,24 @@ _k = z3.Int("ax_k")
 _a, _b = z3.Int("ax_a"), z3.Int("ax_b")
 _s = z3.String("ax_s")
 REG.axioms += [
-    ("T-io:uncookie(cookie(c))=c", z3.ForAll([_k], uncookie(cookie(_k)) == _k, patterns=[cookie(_k)])),
-    ("T-io:cookie(0)=0", cookie(0) == 0),
-    ("ghost:rank(0)=0", rank(0) == 0),
+    ("T-io:uncookie(cookie(c))=c", z3.ForAll([_k], uncookie(cookie(_k)) == _k, patterns=[cookie(_k)]), "io"),
+    ("T-io:cookie(0)=0", cookie(0) == 0, "io"),
+    ("ghost:rank(0)=0", rank(0) == 0, "io"),
     ("ghost:rank(k+1)", z3.ForAll([_k], z3.Implies(_k >= 0, rank(_k + 1) == rank(_k) + z3.If(T(_k), 1, 0)),
-                                  patterns=[rank(_k + 1)])),
+                                  patterns=[rank(_k + 1)]), "io"),
 ]
+
+
+def exists_hint(c, var, body, hints=()):
+    """Exists(var, body(var)).  When the clause is a proof goal (not a callee
+    assumption) the disjuncts body(h) for local variables h are offered to the
+    solver as explicit witnesses; Or(body(h), Exists) is equivalent to the Exists."""
+    ex = z3.Exists([var], body(var))
+    if getattr(c, "callee", False):
+        return ex
+    alts = []
+    for h in hints:
+        v = c.st.env.get(h)
+        if v is not None and isinstance(v, VInt):
+            alts.append(body(v.t))
+    return z3.Or(alts + [ex]) if alts else ex
